@@ -538,6 +538,10 @@ class PoolTheory(Theory):
                 return [(st, IntV(v.n))]
             if isinstance(v, TupleV):
                 return [(st, IntV(len(v.items)))]
+            if isinstance(v, StrV):
+                n = fresh("strlen", I)
+                st.assume(n >= 0)
+                return [(st, IntV(n))]
             if isinstance(v, ObjV):
                 fi = ip.repo.find_method(v.cls, "__len__")
                 return ip.call_repo(st, fr, fi, pos[0], [], {})
